@@ -149,7 +149,7 @@ CLAIMED = {
 }
 
 # properties whose check has run green on the unchanged tree (only these are claimed)
-READY = {"C01", "C02", "C09", "C12", "C13", "C14", "C16", "C17", "C08", "C11", "C15", "C22", "C23", "C29", "C31"}
+READY = {"C01", "C02", "C09", "C12", "C13", "C14", "C16", "C17", "C08", "C11", "C15", "C22", "C23", "C29", "C31", "C36"}
 
 PENDING = {
     pid: "check under construction in this session (planned claim, see DESIGN.md section 6); not claimed until its obligations run green"
